@@ -733,6 +733,10 @@ def regenerate_transform(source_fn):
 #######################
 
 
+def _kwarged_source(source, args, kwargs):
+    return source(*args, **kwargs)
+
+
 @Pytree.dataclass
 class StaticGenerativeFunction(Generic[R], GenerativeFunction[R]):
     """A `StaticGenerativeFunction` is a generative function which relies on program
@@ -789,11 +793,10 @@ class StaticGenerativeFunction(Generic[R], GenerativeFunction[R]):
         object.__setattr__(self, "__wrapped__", wrapped)
 
     def handle_kwargs(self) -> "StaticGenerativeFunction[R]":
-        @Pytree.partial()
-        def kwarged_source(args, kwargs):
-            return self.source(*args, **kwargs)
-
-        return StaticGenerativeFunction(kwarged_source)
+        # One module-level function, with the source as pytree data of the closure: every call
+        # gives an equal generative function (same pytree structure), and values carried by
+        # the source (partial_apply) stay pytree leaves.
+        return StaticGenerativeFunction(Pytree.partial(self.source)(_kwarged_source))
 
     def simulate(
         self,
